@@ -117,6 +117,9 @@ pub struct Ctx {
     pub violation_count: AtomicU64,
     pub assumptions: Mutex<Vec<String>>,
     pub only_family: Option<String>,
+    /// problems of the machinery itself (nondeterministic replay, failed dedup audit): exit 2 unless a violation was confirmed,
+    /// in which case they are printed as notes next to it
+    pub machinery: Mutex<Vec<String>>,
 }
 
 pub const MAX_GROUPS: usize = 5000;
@@ -134,6 +137,7 @@ impl Ctx {
             violation_count: AtomicU64::new(0),
             assumptions: Mutex::new(vec![]),
             only_family: std::env::var("VERIF_FAMILY").ok(),
+            machinery: Mutex::new(vec![]),
         }
     }
 
